@@ -52,6 +52,13 @@ def fibers_at(spec, depth, level, prefix=()):
     return out
 
 
+def stored_prefixes(spec, depth, n):
+    """Paths of length n (1..depth) of every stored element at level n-1."""
+    if n == depth:
+        return stored_points(spec, depth)
+    return [path for path, _ in fibers_at(spec, depth, n)]
+
+
 def t4c_specs(dims=(2, 2, 2, 2), at_most=None, at_least=None):
     """Depth-len(dims) trees holding content only: every subset of the index
     space (optionally only those with <= at_most or >= at_least points), no
@@ -127,6 +134,20 @@ def collides(points, d, l, style, dims):
     seen = set()
     for p in points:
         q = flat_point(p, d, l, style, dims)
+        if q in seen:
+            return True
+        seen.add(q)
+    return False
+
+
+def rank_collides(prefixes, d, l, style, dims):
+    """Do two stored elements of the lowest flattened rank (given by their
+    paths of length d+l+1) receive the same coordinate in the same fiber of the
+    flattened rank?  Then the library has to merge payloads (sub-fibers or
+    leaves), which flattenRanks refuses by design."""
+    seen = set()
+    for p in prefixes:
+        q = p[:d] + (combine(p[d:d + l + 1], style, dims[d:d + l + 1]),)
         if q in seen:
             return True
         seen.add(q)
